@@ -1,12 +1,146 @@
-/- EntryOps of the line protocol (extension point). -/
+/- Entry-style and remaining `HashMap` operations of the line protocol. -/
 import Hb.Driver.Base
+import Hb.Model.Entry
 namespace Hb.Driver
 open Hb
+
+/-- Hash the plan assigns to `k` without consuming the tape (`tape::plan_hash`). -/
+def planHash (st : DState) (k : Nat) : Nat := (st.plan.get? k).getD (mix3 0x5eed 0 k)
+
+def fmtKey (ids : Bool) (k kid : Nat) : String := if ids then s!"{k}.{kid}" else s!"{k}.0"
+
+def fmtEOut (ids : Bool) : Map.EOut → String
+  | .none => ""
+  | .val vid v => " " ++ fmtOptVal ids (some (vid, v))
+  | .elem e => " " ++ fmtElem ids e
+  | .key k kid => " " ++ fmtKey ids k kid
+  | .qkey k => s!" {k}"
+  | .entOcc e => " occ:" ++ fmtElem ids e
+  | .entVac k kid => " vac:" ++ fmtKey ids k kid
+  | .entVacRaw => " vac:"
+
+def fmtEnt (ids : Bool) (yes no : String) (r : Bool × Map.EOut) : String :=
+  (if r.1 then yes else no) ++ fmtEOut ids r.2
+
+def parseEChain : List String → Option Map.EChain
+  | ["insert", vid, v] => some (.insert (nat! vid) (nat! v))
+  | ["or_insert", vid, v] => some (.orInsert (nat! vid) (nat! v))
+  | ["or_insert_with", vid, v] => some (.orInsert (nat! vid) (nat! v))
+  | ["or_insert_with_key", vid, v] => some (.orInsertWithKey (nat! vid) (nat! v))
+  | ["and_modify", nv, "or_insert", vid, v] => some (.andModifyOrInsert (nat! nv) (nat! vid) (nat! v))
+  | ["key"] => some .key
+  | ["drop"] => some .drop
+  | ["occ_remove"] => some .occRemove
+  | ["occ_remove_entry"] => some .occRemoveEntry
+  | ["occ_insert", vid, v] => some (.occInsert (nat! vid) (nat! v))
+  | ["occ_get_mut", nv] => some (.occGetMut (nat! nv))
+  | ["replace_entry_with", m, nv] => some (.replaceEntryWith (m == "keep") (nat! nv))
+  | ["and_replace_entry_with", m, nv] => some (.andReplaceEntryWith (m == "keep") (nat! nv))
+  | ["vac_insert", vid, v] => some (.vacInsert (nat! vid) (nat! v))
+  | ["vac_insert_entry", vid, v] => some (.vacInsertEntry (nat! vid) (nat! v))
+  | ["vac_into_key"] => some .vacIntoKey
+  | _ => none
+
+/-- Chains available on `EntryRef`. -/
+def refChainOk : Map.EChain → Bool
+  | .insert .. | .orInsert .. | .andModifyOrInsert .. | .drop | .key => true
+  | _ => false
+
+/-- Chains available on `RustcEntry`. -/
+def rustcChainOk : Map.EChain → Bool
+  | .insert .. | .orInsert .. | .occRemove | .occInsert .. | .vacInsert .. | .vacInsertEntry .. | .drop => true
+  | _ => false
+
+def parseRawChain : List String → Option Map.RawChain
+  | ["insert", kid, vid, v] => some (.insert (nat! kid) (nat! vid) (nat! v))
+  | ["or_insert", kid, vid, v] => some (.orInsert (nat! kid) (nat! vid) (nat! v))
+  | ["vac_insert", kid, vid, v] => some (.vacInsert (nat! kid) (nat! vid) (nat! v))
+  | ["vac_insert_hashed", kid, vid, v] => some (.vacInsertHashed (nat! kid) (nat! vid) (nat! v))
+  | ["vac_insert_with_hasher", kid, vid, v] => some (.vacInsertHashed (nat! kid) (nat! vid) (nat! v))
+  | ["occ_remove"] => some .occRemove
+  | ["occ_remove_entry"] => some .occRemoveEntry
+  | ["occ_insert", vid, v] => some (.occInsert (nat! vid) (nat! v))
+  | ["occ_insert_key", kid] => some (.occInsertKey (nat! kid))
+  | ["and_modify", nv] => some (.andModify (nat! nv))
+  | ["replace_entry_with", m, nv] => some (.replaceEntryWith (m == "keep") (nat! nv))
+  | ["drop"] => some .drop
+  | _ => none
+
+/-- `n k1 kid1 vid1 v1 …` -/
+def parseItems : Nat → List String → Option (List Elem)
+  | 0, [] => some []
+  | n + 1, k :: kid :: vid :: v :: rest =>
+    (parseItems n rest).map fun l => ⟨nat! k, nat! kid, nat! vid, nat! v⟩ :: l
+  | _, _ => none
 
 /-- Execute one op; `(out, fatal, new value for the other collection)`. -/
 def execEntryOp (st : DState) (env : Env) (name : String) (args : List String) (other : Raw) (w : World) :
     StepOut × Bool × Option Raw :=
-  let _ := (st, env, args, other)
-  ({ ret := s!"bad-op {name}", w := w }, true, none)
+  let _ := other
+  let cfg := st.cfg
+  let ids := st.ids
+  let no (x : StepOut × Bool) : StepOut × Bool × Option Raw := (x.1, x.2, none)
+  let bad : StepOut × Bool × Option Raw :=
+    ({ ret := s!"bad-op {name} {String.intercalate " " args}", w := w }, true, none)
+  let ent (r : Map.EntRes) := no <| resOut r (fmtEnt ids "occ" "vac") w
+  let commaE (l : List Elem) := String.intercalate "," (l.map (fmtElem ids))
+  match name, args with
+  | "entry", k :: kid :: chain =>
+    match parseEChain chain with
+    | some c => ent (Map.entry cfg env (nat! k) (nat! kid) c w)
+    | none => bad
+  | "entry_ref", k :: newkid :: chain =>
+    match parseEChain chain with
+    | some c => if refChainOk c then ent (Map.entryRef cfg env (nat! k) (nat! newkid) c w) else bad
+    | none => bad
+  | "rustc_entry", k :: kid :: chain =>
+    match parseEChain chain with
+    | some c => if rustcChainOk c then ent (Map.rustcEntry cfg env (nat! k) (nat! kid) c w) else bad
+    | none => bad
+  | "try_insert", [k, kid, vid, v] =>
+    no <| resOut (Map.tryInsert cfg env ⟨nat! k, nat! kid, nat! vid, nat! v⟩ w) (fmtEnt ids "ok" "err") w
+  | "raw_from_key", k :: chain =>
+    match parseRawChain chain with
+    | some c => ent (Map.rawEntry cfg env .fromKey (planHash st (nat! k)) (nat! k) c w)
+    | none => bad
+  | "raw_from_key_hashed", k :: chain =>
+    match parseRawChain chain with
+    | some c => ent (Map.rawEntry cfg env .fromKeyHashed (planHash st (nat! k)) (nat! k) c w)
+    | none => bad
+  | "raw_from_hash", k :: chain =>
+    match parseRawChain chain with
+    | some c => ent (Map.rawEntry cfg env .fromHash (planHash st (nat! k)) (nat! k) c w)
+    | none => bad
+  | "raw_get", [k] =>
+    no <| resOut (Map.rawGet cfg env .fromKey (planHash st (nat! k)) (nat! k) w) (fmtOptElem ids) w
+  | "raw_get_hash", [k] =>
+    no <| resOut (Map.rawGet cfg env .fromHash (planHash st (nat! k)) (nat! k) w) (fmtOptElem ids) w
+  | "extend", n :: rest =>
+    match parseItems (nat! n) rest with
+    | some items => no <| resOutW (Map.extend cfg env items w) w
+    | none => bad
+  | "from_iter", n :: rest =>
+    match parseItems (nat! n) rest with
+    | some items => no <| resOutW (Map.fromIter cfg env items w) w
+    | none => bad
+  | "get_many_mut", ks =>
+    no <| resOut (Map.getManyMut cfg env (ks.map nat!) w)
+      (fun l => String.intercalate "," (l.map fun e => fmtOptVal ids (e.map fun e => (e.vid, e.v)))) w
+  | "get_many_key_value_mut", ks =>
+    no <| resOut (Map.getManyMut cfg env (ks.map nat!) w)
+      (fun l => String.intercalate "," (l.map (fmtOptElem ids))) w
+  | "index", [k] => no <| resOut (Map.index cfg env (nat! k) w) (fun r => fmtOptVal ids (some r)) w
+  | "insert_unique_unchecked", [k, kid, vid, v] =>
+    no <| resOut (Map.insertUniqueUnchecked cfg env ⟨nat! k, nat! kid, nat! vid, nat! v⟩ w) (fmtElem ids) w
+  | "into_keys", [n] =>
+    no <| resOut (Map.intoKeys cfg env (nat! n) w)
+      (fun l => String.intercalate "," (l.map fun e => fmtKey ids e.k e.kid)) w
+  | "into_values", [n] =>
+    no <| resOut (Map.intoValues cfg env (nat! n) w)
+      (fun l => String.intercalate "," (l.map fun e => fmtOptVal ids (some (e.vid, e.v)))) w
+  | "values_mut_set", [nv] => no ({ ret := "()", w := Map.valuesMutSet (nat! nv) w }, false)
+  | _, _ =>
+    let _ := commaE
+    bad
 
 end Hb.Driver
